@@ -307,8 +307,11 @@ void janet_async_start_fiber(JanetFiber *fiber, JanetStream *stream, JanetAsyncM
      * would leave that fiber suspended forever, so refuse instead. */
     if (((mode & JANET_ASYNC_LISTEN_READ) && janet_stream_side_taken(stream->read_fiber, fiber)) ||
             ((mode & JANET_ASYNC_LISTEN_WRITE) && janet_stream_side_taken(stream->write_fiber, fiber))) {
+        /* Raise the error through the scheduler rather than from here: being scheduled also
+         * invalidates a timeout the caller may already have armed for this operation. */
         janet_free(state);
-        janet_panic("another fiber is already waiting on this stream");
+        janet_cancel(fiber, janet_cstringv("another fiber is already waiting on this stream"));
+        return;
     }
     if (mode & JANET_ASYNC_LISTEN_READ) {
         stream->read_fiber = fiber;
